@@ -7,6 +7,9 @@ pub open spec fn name_keyed_builtin(n: Seq<char>) -> bool {
     n == "array_get"@ || n == "array_set"@ || n == "ref"@ || n == "ref_get"@ || n == "ref_set"@ || n == "vec_new"@ || n == "vec_push"@
     || n == "vec_get"@ || n == "vec_len"@
 }
+// the runtime function the match compiler calls BY NAME for a non-exhaustive match (compile_match.rs emits a call of `missing`)
+pub open spec fn runtime_called_by_name(n: Seq<char>) -> bool { n == "missing"@ }
+#[verifier::external_body] pub fn string_is(a: &String, lit: &str) -> (r: bool) ensures r == (a@ == lit@) { unimplemented!() }          // `a == "lit"`
 // name resolution: only its error count matters here
 #[verifier::external_body] pub struct NameResolution { _p: u64 }
 impl NameResolution {
